@@ -35,6 +35,7 @@ KNOWN_MISSING = 'composite-missing-at-entry'
 KNOWN_ORDER = 'composite-resolved-through-later-state-variable'
 KNOWN_FORTARGET = 'nouts-for-target-killed-on-loop-exit'
 KNOWN_PREV_ITER = 'getter-reads-body-local-bound-only-by-previous-iteration'
+KNOWN_TRY_DEF = 'getter-reads-variable-defined-only-inside-earlier-try'
 SHIFT = 4     # module prelude lines in front of the generated function
 
 DIRECTIVE = 'malt.experimental.set_loop_options'
@@ -53,7 +54,7 @@ class Gen(progs.Gen):
 
     def __init__(self, rnd, opts, stream):
         progs.Gen.__init__(self, rnd, opts)
-        self.stream = stream        # 'main' | 'missing' | 'order'
+        self.stream = stream        # 'main' | 'missing' | 'order' | 'scopes'
 
     def composite(self):
         pool = ["o.v", "d['k']", "o.u", "d[0]"]
@@ -71,6 +72,27 @@ class Gen(progs.Gen):
                 op = r.choice(['=', '=', '+=']) if t in ("o.v", "d['k']", "o.u", "d[0]") else '='
                 self.emit(ind, '%s %s %s' % (t, op, self.texpr(defined)))
                 return defined, True
+        if c >= 0.22 and c < (0.40 if self.stream == 'scopes' else 0.245) and self.stream in ('scopes', 'main') and depth < 3:
+            # a nested function / class body that declares a name of the enclosing function global or nonlocal:
+            # the declaration belongs to the nested scope only; the enclosing function's variable stays a local
+            self.budget -= 1
+            v = r.choice(self.vars)
+            u = r.choice([x for x in self.vars if x != v])
+            decl = r.choice(['global', 'global', 'nonlocal'])
+            self.emit(ind, '%s = %s' % (v, self.texpr(defined)))
+            if r.random() < 0.7:
+                name = 'g%d' % self.key()
+                self.emit(ind, 'def %s():' % name)
+                self.emit(ind + 1, '%s %s' % (decl, v))
+                self.emit(ind + 1, '%s = T(%d)' % (v, self.key()))
+                self.emit(ind + 1, 'return T(%d)' % self.key())
+                self.emit(ind, '%s = %s()' % (u, name))
+            else:
+                self.emit(ind, 'class C%d:' % self.key())
+                self.emit(ind + 1, '%s %s' % (decl, v))
+                self.emit(ind + 1, '%s = %d' % (v, r.randint(0, 9)))
+                self.emit(ind, '%s = T(%d, %s)' % (u, self.key(), v))
+            return defined | {v, u}, True
         if self.stream == 'order' and c < 0.34 and defined:
             self.budget -= 1
             v = r.choice(sorted(defined & set(self.vars)) or ['a'])
@@ -116,6 +138,8 @@ CORPUS = [
     ('main', "def f(a, b, c, m, o, d, e):\n    x = T(1)\n    y = T(2)\n    if D(3):\n        y = x + 1\n        x = 5\n        z = 7\n    else:\n        z = 8\n    w = (T(4) if D(5) else T(6)) + (D(7) and D(8)) + (not D(9)) + (D(10) or D(11))\n    return T(12, y, z, w)\n"),
     ('main', "def f(a, b, c, m, o, d, e):\n    global G\n    x = 1\n    while D(1):\n        G = T(2, x)\n        x += 1\n        if D(3):\n            continue\n        o.v = x\n        if D(4):\n            return T(5, x)\n    return T(6, x)\n"),
     ('main', "def f(a, b, c, m, o, d, e):\n    w = T(1)\n    for w in L(2):\n        if D(3, w):\n            w = T(4, w)\n    return T(5, w)\n"),
+    ('scopes', "def f(a, b, c, m, o, d, e):\n    x = T(1)\n    def g1():\n        global x\n        x = T(2)\n        return T(3)\n    for y in L(4):\n        x = x + g1()\n    return T(5, x)\n"),
+    ('scopes', "def f(a, b, c, m, o, d, e):\n    x = T(1)\n    z = 0\n    class C1:\n        global x\n        x = 5\n    def g2():\n        nonlocal z\n        z = z + T(2)\n        return T(3)\n    if D(4):\n        x = x + g2()\n        z = z + 1\n    while D(6):\n        z = z + g2()\n    return T(5, x, z)\n"),
     ('missing', "def f(a, b, c, m, o, d, e):\n    if D(1):\n        d['j'] = T(2)\n    if D(3):\n        o.w = T(4)\n    return T(5)\n"),
     ('order', "def f(a, b, c, m, o, d, e):\n    x = 0\n    while D(1):\n        e[x] = T(2, x)\n        x = x + 1\n    return T(3, x)\n"),
 ]
@@ -330,6 +354,39 @@ class Monitor(object):
                     return True
         return False
 
+    def is_defined_only_in_earlier_try(self, exc, frame, names):
+        """classifier of the known finding: the getter raised NameError / UnboundLocalError for a simple state variable v
+        whose every assignment in the original function that textually precedes the statement lies inside a try
+        statement (body, handler, else or finally) that ends before the statement: reaching definitions (a may-analysis)
+        count such a definition as defined-on-entry, so no ag__.Undefined placeholder is emitted, and try statements
+        themselves are not functionalised, so nothing else binds v on the path that skips the assignment"""
+        import re
+        if not isinstance(exc, NameError):
+            return False
+        v = getattr(exc, 'name', None)
+        if not v:
+            m = re.search(r"variable '(\w+)'|name '(\w+)'", str(exc))
+            v = (m.group(1) or m.group(2)) if m else None
+        line = self.orig_line(frame)
+        if not v or v not in names or line is None or self.program_src is None:
+            return False
+        line -= SHIFT
+        tree = ast.parse(self.program_src)
+        fn = tree.body[0]
+        if v in {a.arg for a in fn.args.args}:
+            return False
+        if line <= fn.lineno:
+            # a guard synthesised by the return lowering (`if not do_return:` around the rest of the function) carries
+            # the position of the function itself: then every assignment of v in the function must lie in a try
+            line = fn.end_lineno + 1
+        tries = [t for t in ast.walk(fn) if isinstance(t, ast.Try) and t.end_lineno < line]
+        stores = [x for x in ast.walk(fn) if isinstance(x, ast.Name) and x.id == v and isinstance(x.ctx, ast.Store)
+                  and x.lineno < line]
+        stores += [h for h in ast.walk(fn) if isinstance(h, ast.ExceptHandler) and h.name == v and h.lineno < line]
+        if not stores:
+            return False
+        return all(any(t.lineno <= x.lineno <= t.end_lineno for t in tries) for x in stores)
+
     # ---- the contract at one invocation
     def check_state(self, op, frame, get_state, set_state, names, nouts, detail):
         ok = True
@@ -350,7 +407,8 @@ class Monitor(object):
             g1 = get_state()
             g2 = get_state()
         except Exception as e:  # noqa
-            cls = KNOWN_PREV_ITER if self.is_prev_iteration_local(e, frame, names) else None
+            cls = KNOWN_PREV_ITER if self.is_prev_iteration_local(e, frame, names) else (
+                KNOWN_TRY_DEF if self.is_defined_only_in_earlier_try(e, frame, names) else None)
             self.fail('%s: get_state() raised %s' % (op, type(e).__name__), dict(detail, error=str(e)), cls)
             return None
         if not (isinstance(g1, tuple) and len(g1) == n):
@@ -858,8 +916,28 @@ class Harness(object):
         rec = {}
         h = self
         from malt.pyct import anno
+        from malt.pyct.static_analysis import annos
+        self.scope_records = []      # (function name, names in Scope.globals, names in Scope.nonlocals)
+        self.decl_records = []       # (function name, operator, {state variable: declaration kind in the setter / callbacks})
+        fn_stack = []
+        saved_fd = T.__dict__.get('visit_FunctionDef')
+        if saved_fd is not None:
+            def visit_fd(self_, node):
+                try:
+                    sc = anno.getanno(node, annos.NodeAnno.BODY_SCOPE)
+                    h.scope_records.append((node.name, sorted(str(q) for q in sc.globals), sorted(str(q) for q in sc.nonlocals)))
+                except Exception:  # noqa
+                    h.scope_records.append((node.name, None, None))
+                fn_stack.append(node.name)
+                try:
+                    return saved_fd(self_, node)
+                finally:
+                    fn_stack.pop()
+            T.visit_FunctionDef = visit_fd
+            saved['visit_FunctionDef'] = saved_fd
 
-        if capture and len(saved) == 6:
+        if capture and all(k in saved for k in ('_get_block_vars', '_get_block_basic_vars', '_get_block_composite_vars',
+                                                'visit_If', 'visit_While', 'visit_For')):
             def gbv(self_, node, modified):
                 r = saved['_get_block_vars'](self_, node, modified)
                 rec['node'] = node
@@ -884,6 +962,10 @@ class Harness(object):
                 def visit(self_, node):
                     target = _unparse(node.target).strip() if kind == 'KFor' else ''
                     new_nodes = saved[name](self_, node)
+                    try:
+                        h.decl_records.append((fn_stack[-1] if fn_stack else None,) + declared_kinds(new_nodes))
+                    except Exception:  # noqa
+                        pass
                     try:
                         h.record_static(kind, rec, new_nodes, target, anno)
                     except _Unexportable:
@@ -990,6 +1072,89 @@ def is_enclosing_for_target(src, module_line, var):
     return False
 
 
+def declared_kinds(new_nodes):
+    """statements emitted for one if / while / for -> (operator, symbol names, {function def name: {name: 'global' |
+    'nonlocal'}}) for the generated setter and callbacks"""
+    call = new_nodes[-1].value
+    op = ast.unparse(call.func)[5:]
+    names = []
+    for a in call.args:
+        if isinstance(a, ast.Tuple) and all(isinstance(e, ast.Constant) and isinstance(e.value, str) for e in a.elts):
+            names = [e.value for e in a.elts]
+    kinds = {}
+    for n in new_nodes:
+        if isinstance(n, ast.FunctionDef):
+            k = {}
+            for st in n.body:
+                if isinstance(st, ast.Global):
+                    k.update({x: 'global' for x in st.names})
+                elif isinstance(st, ast.Nonlocal):
+                    k.update({x: 'nonlocal' for x in st.names})
+            kinds[n.name] = k
+    return op, names, kinds
+
+
+def symtable_decls(src):
+    """CPython's own answer: function name -> (names the function itself declares global, names it declares nonlocal)"""
+    import symtable
+    out = {}
+
+    def walk(t):
+        if t.get_type() == 'function':
+            g = sorted(sy.get_name() for sy in t.get_symbols() if sy.is_declared_global())
+            n = sorted(sy.get_name() for sy in t.get_symbols() if sy.is_nonlocal())
+            out.setdefault(t.get_name(), (g, n))
+        for c in t.get_children():
+            walk(c)
+    walk(symtable.symtable(src, '<c03>', 'exec'))
+    return out
+
+
+def scope_tie_failures(h, src):
+    """(1) Scope.globals / Scope.nonlocals of every function the control-flow pass sees are exactly the names that
+    function itself declares, as CPython's symtable reports them; (2) every simple state variable gets, in the generated
+    setter and in every callback that declares it, the declaration kind it has IN THE ENCLOSING FUNCTION: `global` iff
+    that function declares it global, `nonlocal` otherwise (getter and setter then denote the same variable)."""
+    out = []
+    try:
+        want = symtable_decls(src)
+    except SyntaxError:
+        return out
+    for name, g, n in h.scope_records:
+        key = name[5:] if name.startswith('ag__') and name[5:] in want else name
+        if key not in want or g is None:
+            continue
+        wg, wn = want[key]
+        if g != wg:
+            out.append(('activity: Scope.globals of function %s is %s, the function itself declares %s global (symtable)'
+                        % (key, g, wg), {'function': key, 'scope_globals': g, 'symtable_declared_global': wg}))
+        if n != wn:
+            out.append(('activity: Scope.nonlocals of function %s is %s, the function itself declares %s nonlocal (symtable)'
+                        % (key, n, wn), {'function': key, 'scope_nonlocals': n, 'symtable_declared_nonlocal': wn}))
+    for fn, op, names, kinds in h.decl_records:
+        key = fn[5:] if fn and fn.startswith('ag__') and fn[5:] in want else fn
+        if key not in want:
+            continue
+        wg = set(want[key][0])
+        for v in names:
+            if not v.isidentifier():
+                continue
+            expect = 'global' if v in wg else 'nonlocal'
+            for dname, k in sorted(kinds.items()):
+                if dname.startswith('get_state'):
+                    continue
+                got = k.get(v)
+                if dname.startswith('set_state') and got is None:
+                    out.append(('%s: the generated setter %s assigns state variable %s without declaring it (%s expected)'
+                                % (op, dname, v, expect), {'function': key, 'symbol_names': names, 'declarations': kinds}))
+                elif got is not None and got != expect:
+                    out.append(('%s: generated %s declares state variable %s `%s`, in function %s it is %s: getter and '
+                                'setter do not denote the same variable' % (op, dname, v, got, key,
+                                'declared global' if expect == 'global' else 'a local / enclosing-function variable'),
+                                {'function': key, 'symbol_names': names, 'declarations': kinds}))
+    return out
+
+
 def decision_vectors(rnd, n):
     out = [[1, 2, 1, 0, 1, 3, 0, 1, 1, 0, 2, 1], [0] * 4, [1] * 6 + [0] * 6]
     while len(out) < n:
@@ -1004,6 +1169,8 @@ def run_fn(h, mod, fn, decisions, monitor=None):
         g[nm] = h.api.do_not_convert(g[nm])
     mod.__dict__.update(g)
     mod.__dict__['G'] = 0
+    for nm in progs.VARS:
+        mod.__dict__.pop(nm, None)
     args = fresh_args()
     if monitor is not None:
         monitor.containers = [args[3], args[4], args[5], args[6]]
@@ -1025,7 +1192,8 @@ def run_fn(h, mod, fn, decisions, monitor=None):
 
 def check(run):
     thorough = run.tier == 'thorough'
-    run.rule = ('programs: hand corpus + seeded progs.Gen extended with composite state (o.v, d[\'k\'], d[0]; stream '
+    run.rule = ('programs: hand corpus + seeded progs.Gen extended with nested defs / class bodies declaring a local of the '
+                'enclosing function global / nonlocal (stream "scopes" and main), composite state (o.v, d[\'k\'], d[0]; stream '
                 '"missing": o.w / d[\'j\'] unset at entry; stream "order": e[x] with x reassigned) and set_loop_options '
                 'directives as first loop statement; each converted with instrumented operators and run under several '
                 'decision vectors; evaluations = dynamic operator invocations checked + static cases + dynamic model cases; '
@@ -1044,13 +1212,15 @@ def check(run):
 
     rnd = random.Random(run.seed)
     h = Harness(run)
-    nprog = {'main': 320, 'missing': 50, 'order': 50} if not thorough else {'main': 1200, 'missing': 200, 'order': 200}
+    nprog = ({'main': 300, 'missing': 50, 'order': 50, 'scopes': 60} if not thorough else
+             {'main': 1200, 'missing': 200, 'order': 200, 'scopes': 250})
     nvec = 3 if not thorough else 5
     programs = list(CORPUS) + corpus_files()
-    for stream in ('main', 'missing', 'order'):
+    for stream in ('main', 'missing', 'order', 'scopes'):
         for _ in range(nprog[stream]):
             programs.append((stream, gen_program(rnd, stream)))
     failures = []      # (what, replay dict, classify)
+    scope_checked = {'functions': 0, 'statements': 0, 'failures': 0}
     conv_errors = 0
     dyn_all = []
     kinds_total = {}
@@ -1066,8 +1236,15 @@ def check(run):
                 shift = SHIFT
                 monitor.expected_opts = {k + shift: v for k, v in monitor.expected_opts.items()}
                 monitor.loop_keys = {k: v + shift for k, v in monitor.loop_keys.items()}
-                tf, smap = h.convert(mod, monitor, capture=tie_ok)
+                tf, smap = h.convert(mod, monitor, capture=True)
                 monitor.source_map = smap
+                for what, detail in scope_tie_failures(h, src):
+                    failures.append((what, {'what': what, 'stream': stream, 'program': src, 'detail': detail,
+                                            'oracle': 'symtable.symtable(program) -- CPython\'s binding rules',
+                                            'generated_code': inspect.getsource(tf)[:6000]}, None))
+                    scope_checked['failures'] += 1
+                scope_checked['functions'] += len(h.scope_records)
+                scope_checked['statements'] += len(h.decl_records)
             except Exception as e:  # noqa
                 conv_errors += 1
                 if conv_errors <= 3:
@@ -1112,6 +1289,7 @@ def check(run):
         run.nontriv((info['kind'], tuple(info['names']), info['nouts'], tuple(info['opts'] or ())))
     run.extra['operator_invocations'] = kinds_total
     run.extra['checks'] = checked
+    run.extra['scope_tie'] = scope_checked
     run.extra['programs'] = len(programs)
     run.extra['conversion_errors'] = conv_errors
     run.extra['static_cases'] = len(h.static_cases)
@@ -1220,9 +1398,11 @@ def replay(path):
         monitor.program_src = rep['program']
         monitor.expected_opts = {k + SHIFT: v for k, v in eo.items()}
         monitor.loop_keys = {k: v + SHIFT for k, v in lk.items()}
-        tf, smap = h.convert(mod, monitor, capture=False)
+        tf, smap = h.convert(mod, monitor, capture=True)
         monitor.source_map = smap
         print(rep['program'])
+        for what, detail in scope_tie_failures(h, rep['program']):
+            monitor.failures.append((what, detail, None))
         out = run_fn(h, mod, tf, rep['decisions'], monitor)
         print('outcome with contract checks:', out[0])
         for what, detail, cls in monitor.failures:
